@@ -547,7 +547,11 @@ def search_for_paths(logger: ConsolePrinter, processor: EYAMLProcessor,
 
                 # Search the name of the key, itself
                 matches = Searches.search_matches(method, term, key)
-                if (matches and not invert) or (invert and not matches):
+                if (((matches and not invert) or (invert and not matches))
+                        and (include_key_aliases
+                             or key_anchor_matched not in [
+                                 AnchorMatches.ALIAS_EXCLUDED,
+                                 AnchorMatches.UNSEARCHABLE_ALIAS])):
                     logger.debug(
                         ("yaml_paths::search_for_paths<dict>:"
                          + "yielding KEY name match, {}:  {}."
@@ -684,7 +688,11 @@ def search_for_paths(logger: ConsolePrinter, processor: EYAMLProcessor,
 
             # Search the name of the key, itself
             matches = Searches.search_matches(method, term, key)
-            if (matches and not invert) or (invert and not matches):
+            if (((matches and not invert) or (invert and not matches))
+                    and (include_key_aliases
+                         or key_anchor_matched not in [
+                             AnchorMatches.ALIAS_EXCLUDED,
+                             AnchorMatches.UNSEARCHABLE_ALIAS])):
                 logger.debug(
                     ("yaml_paths::search_for_paths<set>:"
                         + "yielding KEY name match, {}:  {}."
